@@ -230,6 +230,55 @@ pub fn add_sections(rep: &mut Report, prop: &str, thorough: bool, conformant_onl
         });
         rep.add(sec);
     }
+    if prop == "C07" {
+        // caller-supplied attribute values are opaque bytes: whatever their shape, they appear byte for byte
+        let y = der::string(der::T_UTF8, b"y");
+        let five = der::uint(&[5]);
+        let x = der::string(der::T_UTF8, b"x");
+        let cat = |parts: &[&[u8]]| parts.concat();
+        let shapes: Vec<(&str, Vec<u8>)> = vec![
+            ("sorted SET of two", der::set_of(&[y.clone(), five.clone()])),
+            ("SET of two in reverse order", der::tlv(0x31, &cat(&[&y, &five]))),
+            ("SET of three, unsorted", der::tlv(0x31, &cat(&[&y, &x, &five]))),
+            ("SET with a repeated element", der::tlv(0x31, &cat(&[&x, &x]))),
+            ("SET with non-minimal length", cat(&[&[0x31, 0x81, x.len() as u8], &x])),
+            ("SET with indefinite length", cat(&[&[0x31, 0x80], &x, &[0, 0]])),
+            ("empty SET", der::tlv(0x31, &[])),
+            ("a SEQUENCE instead of a SET", der::seq(&[x.clone()])),
+            ("a bare string", x.clone()),
+            ("an OCTET STRING", der::octet(&[1, 2, 3])),
+            ("SET of 130 strings (long form length)", der::set_of(&(0..130u8).map(|i| der::string(der::T_UTF8, &[b'a', i % 26 + b'a'])).collect::<Vec<_>>())),
+        ];
+        let oids: [&[u64]; 3] = [ATTR_OID_B, ATTR_OID_A, &[2, 999, 1]];
+        let cases: Vec<(usize, usize, bool)> = (0..shapes.len()).flat_map(|s| (0..oids.len()).flat_map(move |o| [(s, o, false), (s, o, true)])).collect();
+        let sec = Section::new("csr/sweep/attribute-value-shapes", "caller attributes whose value bytes are sorted / unsorted / repeated / non-minimally or indefinitely framed SETs, not SETs at all, or long: under 3 attribute types, alone and after another attribute: the attribute {type, value bytes} appears byte for byte in the request");
+        run::sweep_cases(&sec, &cases, &|c| format!("{} under {:?}{}", shapes[c.0].0, oids[c.1], if c.2 { " after (C,X)" } else { "" }), &|c| {
+            let mut out = Outcome::default();
+            let mut attrs = vec![];
+            if c.2 {
+                attrs.push(attr_atoms()[2].1.clone());
+            }
+            attrs.push(AttrSpec { oid: oids[c.1].to_vec(), values: shapes[c.0].1.clone() });
+            let real: Vec<rcgen::Attribute> = attrs.iter().map(|a| rcgen::Attribute { oid: static_oid(&a.oid), values: a.values.clone() }).collect();
+            let params = to_params(&CertState::default()).unwrap();
+            match guarded(|| params.serialize_request_with_attributes(&key, real)) {
+                Ok(Ok(csr)) => {
+                    out.digest = fnv(csr.der());
+                    out.transitions = 1;
+                    for a in &attrs {
+                        let want = der::seq(&[der::oid(&a.oid), a.values.clone()]);
+                        if !csr.der().windows(want.len()).any(|w| w == want.as_slice()) {
+                            out.findings.push(Finding::new("CNT-VALUE(attribute)", "cri.attributes", format!("attribute {:?} with value bytes {:02x?} does not appear byte for byte", a.oid, &a.values[..a.values.len().min(24)])));
+                        }
+                    }
+                }
+                Ok(Err(e)) => out.unexpected_err = Some(format!("{:?}", e)),
+                Err(p) => out.findings.push(Finding::new("PANIC", "serialize_request_with_attributes", p)),
+            }
+            out
+        });
+        rep.add(sec);
+    }
     {
         // refusal: every combination of the five unsupported fields (3 x 4 x 3 x 2 x 2 = 144) x 8 base shapes
         let serials = [None, Some(vec![1u8]), Some(vec![])];
